@@ -48,6 +48,29 @@ Definition inverse_transform (labels : list L) (index : list (L * nat)) (y : lis
 Definition perm_decode (items : list L) (corrected : list nat) : option (list L) :=
   inverse_transform (fit_labels items) (fit_index (fit_labels items)) corrected.
 
+(* D[label]: KeyError = None *)
+Fixpoint ldict_get (k : L) (d : list (L * nat)) : option nat :=
+  match d with [] => None | (k', v) :: t => if eqb k' k then Some v else ldict_get k t end.
+(* LabelEncoder.transform: [index[label] for label in y] *)
+Definition transform (index : list (L * nat)) (y : list L) : option (list nat) := map_opt (fun label => ldict_get label index) y.
+
+(* sorted(l, key=k) with natural keys: stable insertion sort; a key that raises makes the whole call raise *)
+Fixpoint insert_by (key : L -> nat) (x : L) (l : list L) : list L :=
+  match l with [] => [x] | y :: t => if key x <=? key y then x :: y :: t else y :: insert_by key x t end.
+Definition sorted_by_key (key : L -> nat) (l : list L) : list L := fold_right (insert_by key) [] l.
+Definition sorted_by_opt_key (key : L -> option nat) (l : list L) : option (list L) :=
+  if forallb (fun x => is_some (key x)) l then Some (sorted_by_key (fun x => match key x with Some k => k | None => 0 end) l) else None.
+
+(* PermutationVariable.__init__ (as repaired): the encoder is fitted on the items, then ONE LABEL PER DECLARED ITEM is kept, in the encoder's order:
+   sorted(items, key=lambda x: encoder.transform([x])[0]) *)
+Definition item_key (index : list (L * nat)) (x : L) : option nat := obind (transform index [x]) (fun r => nth_error r 0).
+Definition perm_labels (items : list L) : option (list L) :=
+  sorted_by_opt_key (item_key (fit_index (fit_labels items))) items.
+(* decode (as repaired): [labels[i] for i in corrected] *)
+Definition decode_labels (labels : list L) (corrected : list nat) : option (list L) := map_opt (nth_error labels) corrected.
+Definition perm_decode_items (items : list L) (corrected : list nat) : option (list L) :=
+  obind (perm_labels items) (fun labels => decode_labels labels corrected).
+
 (* ------------------------------------------------------------------------------------------- *)
 Hypothesis eqb_spec : forall x y, eqb x y = true <-> x = y.
 
@@ -170,6 +193,64 @@ Proof.
   rewrite Ho in Ho'. injection Ho' as <-. eapply Permutation_in; eauto.
 Qed.
 
+(* ---- the repaired decode: one label per declared item, so a rearrangement of the declared items WHATEVER the items (repeated ones included) *)
+Lemma insert_by_perm key x l : Permutation (x :: l) (insert_by key x l).
+Proof.
+  induction l as [|y t IH]; cbn; auto. destruct (key x <=? key y); auto.
+  rewrite perm_swap. constructor; auto.
+Qed.
+Lemma sorted_by_key_perm key l : Permutation l (sorted_by_key key l).
+Proof. induction l as [|x t IH]; cbn; auto. rewrite <- insert_by_perm. constructor; auto. Qed.
+
+Lemma ldict_get_combine labels : forall s x, In x labels -> exists k, ldict_get x (combine labels (seq s (length labels))) = Some k.
+Proof.
+  induction labels as [|y t IH]; cbn; intros s x Hx; [tauto|].
+  destruct (eqb y x) eqn:E; [eexists; reflexivity|].
+  destruct Hx as [->|Hx]; [|apply IH; auto].
+  assert (eqb x x = true) by (apply eqb_spec; auto). congruence.
+Qed.
+Lemma item_key_defined items x : In x items -> exists k, item_key (fit_index (fit_labels items)) x = Some k.
+Proof.
+  intros Hx. unfold item_key, transform, map_opt. cbn [map sequence].
+  rewrite fit_index_distinct by apply fit_labels_NoDup.
+  destruct (ldict_get_combine (fit_labels items) 0 x) as (k & Hk); [apply fit_labels_In; auto|].
+  rewrite Hk. cbn. eexists; reflexivity.
+Qed.
+Lemma perm_labels_defined items : exists labels, perm_labels items = Some labels /\ Permutation labels items.
+Proof.
+  unfold perm_labels, sorted_by_opt_key.
+  assert (H : forallb (fun x => is_some (item_key (fit_index (fit_labels items)) x)) items = true).
+  { apply forallb_forall. intros x Hx. destruct (item_key_defined items x Hx) as (k & ->). reflexivity. }
+  rewrite H. eexists; split; [reflexivity|]. apply Permutation_sym, sorted_by_key_perm.
+Qed.
+
+Lemma decode_labels_total labels r : (forall i, In i r -> i < length labels) ->
+  decode_labels labels r = Some (map (fun i => nth i labels unknown) r).
+Proof.
+  intros H. unfold decode_labels, map_opt. induction r as [|i t IH]; cbn [map sequence]; auto.
+  rewrite (nth_error_nth' labels unknown (H i (or_introl eq_refl))). rewrite IH by (intros; apply H; right; auto). reflexivity.
+Qed.
+
+Theorem perm_decode_items_rearranges items r : Permutation r (seq 0 (length items)) ->
+  exists labels out, perm_labels items = Some labels /\ Permutation labels items /\
+    perm_decode_items items r = Some out /\ Permutation out items /\ length out = length r /\
+    (forall j, j < length r -> nth j out unknown = nth (nth j r 0) labels unknown).
+Proof.
+  intros Hr. destruct (perm_labels_defined items) as (labels & Hl & Hp). exists labels.
+  assert (Hlen : length labels = length items) by (apply Permutation_length; auto).
+  unfold perm_decode_items. rewrite Hl. cbn [obind].
+  rewrite decode_labels_total.
+  2:{ intros i Hi. apply (Permutation_in _ Hr) in Hi. apply in_seq in Hi. lia. }
+  eexists; repeat split; try reflexivity; auto.
+  - apply Permutation_trans with labels; [|exact Hp].
+    apply Permutation_trans with (map (fun i => nth i labels unknown) (seq 0 (length labels))).
+    + apply Permutation_map. rewrite Hlen. exact Hr.
+    + rewrite map_nth_seq. apply Permutation_refl.
+  - apply map_length.
+  - intros j Hj. rewrite (nth_indep _ unknown (nth 0 labels unknown)) by (rewrite map_length; auto).
+    change (nth 0 labels unknown) with ((fun i => nth i labels unknown) 0). rewrite map_nth. reflexivity.
+Qed.
+
 (* ---- the label order does not depend on the iteration order of the set (C07): for a total order, sorting is canonical *)
 Definition le (a b : L) : Prop := leb a b = true.
 Hypothesis leb_total : forall a b, leb a b = true \/ leb b a = true.
@@ -208,6 +289,85 @@ Proof.
   intros Hp. apply sorted_perm_unique; try apply isort_sorted.
   rewrite <- (isort_perm s), <- (isort_perm s'). exact Hp.
 Qed.
+
+(* ---- the repair changes nothing for distinct items: the per-item labels ARE the encoder's labels, so decode gives what inverse_transform gave *)
+Section ByKey.
+Variable key : L -> nat.
+Definition kle (a b : L) : Prop := key a <= key b.
+Lemma insert_by_sorted x l : StronglySorted kle l -> StronglySorted kle (insert_by key x l).
+Proof.
+  induction 1 as [|y t Hs IH Hy]; cbn; [repeat constructor|].
+  destruct (Nat.leb_spec (key x) (key y)) as [E|E].
+  - constructor; [constructor; auto|]. constructor; auto. rewrite Forall_forall in *. intros z Hz. unfold kle in *. specialize (Hy z Hz). lia.
+  - constructor; auto. rewrite Forall_forall in *. intros z Hz.
+    apply (Permutation_in _ (Permutation_sym (insert_by_perm key x t))) in Hz. destruct Hz as [<-|Hz]; auto. unfold kle. lia.
+Qed.
+Lemma sorted_by_key_sorted l : StronglySorted kle (sorted_by_key key l).
+Proof. induction l as [|x t IH]; cbn; [constructor|]. apply insert_by_sorted; auto. Qed.
+Lemma ksorted_perm_unique l : forall l', (forall a b, In a l -> In b l -> key a = key b -> a = b) ->
+  StronglySorted kle l -> StronglySorted kle l' -> Permutation l l' -> l = l'.
+Proof.
+  induction l as [|x t IH]; intros l' Hinj Hs Hs' Hp.
+  - apply Permutation_nil in Hp. auto.
+  - destruct l' as [|y u]; [apply Permutation_sym, Permutation_nil in Hp; discriminate|].
+    inversion Hs as [|? ? Hst Hx]; subst. inversion Hs' as [|? ? Hsu Hy]; subst.
+    assert (In x (y :: u)) as Hxi by (eapply Permutation_in; [exact Hp|left; auto]).
+    assert (In y (x :: t)) as Hyi by (eapply Permutation_in; [apply Permutation_sym; exact Hp|left; auto]).
+    assert (x = y) as ->.
+    { destruct Hxi as [->|Hxu]; auto. destruct Hyi as [->|Hyt]; auto.
+      rewrite Forall_forall in Hx, Hy. apply Hinj; [left; auto|right; auto|]. specialize (Hx y Hyt). specialize (Hy x Hxu). unfold kle in *. lia. }
+    f_equal. apply IH; auto.
+    + intros a b Ha Hb. apply Hinj; right; auto.
+    + eapply Permutation_cons_inv; eauto.
+Qed.
+End ByKey.
+
+Lemma index_sorted key l : forall s, (forall i, i < length l -> key (nth i l unknown) = s + i) -> StronglySorted (kle key) l.
+Proof.
+  induction l as [|y t IH]; intros s H; [constructor|]. constructor.
+  - apply (IH (S s)). intros i Hi. specialize (H (S i)). cbn in H. rewrite H by lia. lia.
+  - rewrite Forall_forall. intros z Hz. destruct (In_nth _ _ unknown Hz) as (j & Hj & <-).
+    unfold kle. pose proof (H 0) as H0. pose proof (H (S j)) as Hj'. cbn in H0, Hj'. rewrite H0, Hj' by lia. lia.
+Qed.
+
+Lemma ldict_get_nth labels : forall s i, NoDup labels -> i < length labels ->
+  ldict_get (nth i labels unknown) (combine labels (seq s (length labels))) = Some (s + i).
+Proof.
+  induction labels as [|y t IH]; cbn; intros s i Hnd Hi; [lia|].
+  inversion Hnd as [|? ? Hy Ht]; subst. destruct i as [|i].
+  - assert (eqb y y = true) as -> by (apply eqb_spec; auto). f_equal. lia.
+  - destruct (eqb y (nth i t unknown)) eqn:E.
+    + apply eqb_spec in E. subst. exfalso. apply Hy. apply nth_In. lia.
+    + rewrite IH by (auto; lia). f_equal. lia.
+Qed.
+
+Theorem perm_labels_distinct items : NoDup items -> perm_labels items = Some (fit_labels items).
+Proof.
+  intros Hnd. destruct (perm_labels_defined items) as (labels & Hl & Hp). rewrite Hl. f_equal.
+  unfold perm_labels, sorted_by_opt_key in Hl. destruct (forallb _ items); [|discriminate]. injection Hl as <-.
+  set (key := fun x => match item_key (fit_index (fit_labels items)) x with Some k => k | None => 0 end) in *.
+  pose proof (fit_labels_NoDup items) as HL. pose proof (fit_labels_perm items Hnd) as HLp.
+  assert (Hkey : forall i, i < length (fit_labels items) -> key (nth i (fit_labels items) unknown) = i).
+  { intros i Hi. unfold key, item_key, transform, map_opt. cbn [map sequence]. rewrite fit_index_distinct by auto.
+    rewrite ldict_get_nth by auto. reflexivity. }
+  symmetry. apply (ksorted_perm_unique key).
+  - intros a b Ha Hb E. destruct (In_nth _ _ unknown Ha) as (i & Hi & <-). destruct (In_nth _ _ unknown Hb) as (j & Hj & <-).
+    rewrite !Hkey in E by auto. subst; auto.
+  - (* the encoder's labels are sorted by their own index *)
+    apply (index_sorted key _ 0). intros i Hi. rewrite Hkey by auto. reflexivity.
+  - apply sorted_by_key_sorted.
+  - apply Permutation_trans with items; [exact HLp|apply sorted_by_key_perm].
+Qed.
+
+Corollary perm_decode_unchanged_for_distinct items r : NoDup items -> (forall i, In i r -> i < length items) ->
+  perm_decode_items items r = perm_decode items r.
+Proof.
+  intros Hnd Hr. unfold perm_decode_items, perm_decode. rewrite perm_labels_distinct by auto. cbn [obind].
+  pose proof (fit_labels_NoDup items) as HL.
+  assert (Hlen : length (fit_labels items) = length items) by (apply Permutation_length, fit_labels_perm; auto).
+  rewrite inverse_transform_distinct by auto. rewrite decode_labels_total by (intros i Hi; rewrite Hlen; auto).
+  f_equal. apply map_ext_in. intros i Hi. apply Hr in Hi. destruct (Nat.ltb_spec i (length (fit_labels items))); auto; lia.
+Qed.
 End Labels.
 
 (* ---- repeated items: the statement fails.  Three declared items, two distinct labels: index 2 has no label *)
@@ -224,3 +384,8 @@ Qed.
 Example perm_decode_distinct_example :
   perm_decode nat Nat.eqb Nat.leb 99 [30; 10; 20] [2; 0; 1] = Some [30; 10; 20] /\ NoDup [30; 10; 20].
 Proof. split; [vm_compute; reflexivity|]. repeat constructor; cbn; intuition discriminate. Qed.
+
+(* the repaired decode on the same repeated items: a rearrangement *)
+Example perm_decode_items_duplicates :
+  perm_decode_items nat Nat.eqb Nat.leb dup_items [2; 0; 1] = Some [2; 1; 1] /\ perm_decode_items nat Nat.eqb Nat.leb [30; 10; 20] [2; 0; 1] = Some [30; 10; 20].
+Proof. split; vm_compute; reflexivity. Qed.
